@@ -243,7 +243,7 @@ def long_lived(tape, clock):
 
 def run_tape(tape):
     clock = seams.VClock(tick=0.0)
-    with seams.deterministic(tape, clock=clock):
+    with seams.deterministic(tape, clock=clock, scrambled_ids=True):      # S3 lists by key text: ids must not sort by creation time
         mode = tape.draw(4)
         if mode == 3:
             return long_lived(tape, clock)
